@@ -34,6 +34,9 @@ func ruleGPred(c *Ctx) {
 		if name == "EstimateIsFeePaidEnough" {
 			subject = "(*bt.Tx).estimatedFinalTx(p0)#0"
 		}
+		// the estimate may measure the amounts on the transaction itself and take the size through
+		// EstimateSizeWithTypes: the same quantities while the premises below hold on this tree
+		premiseNotes := map[string]string{}
 		rename := func(s string) string {
 			switch s {
 			case "(*bt.Tx).TotalInputSatoshis(" + subject + ")":
@@ -42,6 +45,39 @@ func ruleGPred(c *Ctx) {
 				return "OUT"
 			case "(*bt.Tx).feesPaid(" + subject + ", (*bt.Tx).SizeWithTypes(" + subject + "), p1)#0.TotalFeePaid":
 				return "FEE"
+			}
+			if name == "EstimateIsFeePaidEnough" {
+				switch s {
+				case "(*bt.Tx).TotalInputSatoshis(p0)", "(*bt.Tx).TotalOutputSatoshis(p0)":
+					if why := estimateKeepsAmounts(c); why != "" {
+						premiseNotes["amounts"] = why
+						return s
+					}
+					if strings.Contains(s, "Input") {
+						return "IN"
+					}
+					return "OUT"
+				}
+				for _, recv := range []string{"p0", subject} {
+					for _, size := range []string{"(*bt.Tx).SizeWithTypes(" + subject + ")", "(*bt.Tx).EstimateSizeWithTypes(p0)#0"} {
+						if s != "(*bt.Tx).feesPaid("+recv+", "+size+", p1)#0.TotalFeePaid" {
+							continue
+						}
+						if recv == "p0" {
+							if fp := c.P.Func("", "*Tx", "feesPaid"); fp == nil || len(fp.Params) == 0 || (fp.Params[0].Referrers() != nil && len(*fp.Params[0].Referrers()) > 0) {
+								premiseNotes["receiver"] = "feesPaid reads its receiver, so the fee of the estimated copy and of the transaction itself can differ"
+								return s
+							}
+						}
+						if strings.Contains(size, "EstimateSizeWithTypes") {
+							if why := estimateSizeIsSizeOfEstimate(c); why != "" {
+								premiseNotes["size"] = why
+								return s
+							}
+						}
+						return "FEE"
+					}
+				}
 			}
 			return s
 		}
@@ -84,8 +120,14 @@ func ruleGPred(c *Ctx) {
 		if len(got) == 1 && got["delegates"] {
 			same = true // IsFeePaidEnough itself is decided above, on the same formula
 		}
+		notes := ""
+		for _, k := range []string{"amounts", "receiver", "size"} {
+			if premiseNotes[k] != "" {
+				notes += "; " + premiseNotes[k]
+			}
+		}
 		c.Check(same, "G-pred", "Tx."+name, fn.Pos(), "on "+subject+": false when IN < OUT, else IN-OUT >= FEE, with FEE = feesPaid(SizeWithTypes).TotalFeePaid: "+strings.Join(keysSorted(got), " | "),
-			fmt.Sprintf("%s's verdict changed: {%s}, specified {%s} (IN/OUT/FEE taken on %s)", name, strings.Join(keysSorted(got), " | "), strings.Join(keysSorted(want), " | "), subject))
+			fmt.Sprintf("%s's verdict changed: {%s}, specified {%s} (IN/OUT/FEE taken on %s)%s", name, strings.Join(keysSorted(got), " | "), strings.Join(keysSorted(want), " | "), subject, notes))
 	}
 }
 
@@ -563,4 +605,87 @@ func unwrapIface(v ssa.Value) ssa.Value {
 		return x.X
 	}
 	return v
+}
+
+// estimateKeepsAmounts: estimatedFinalTx returns a Clone of its receiver on which nothing but
+// Input.UnlockingScript is stored (Clone copying the satoshi amounts is rule G-clone, the totals reading
+// only those amounts rule G-sum). "" when that holds.
+func estimateKeepsAmounts(c *Ctx) string {
+	fn := c.P.Func("", "*Tx", "estimatedFinalTx")
+	if fn == nil {
+		return "estimatedFinalTx not found"
+	}
+	oe := oEngine(c)
+	for _, b := range fn.Blocks {
+		for _, ins := range b.Instrs {
+			switch x := ins.(type) {
+			case *ssa.Store:
+				if fa, ok := x.Addr.(*ssa.FieldAddr); ok && fieldName(fa.X.Type(), fa.Field) == "UnlockingScript" && namedOf(fa.X.Type()) == "Input" {
+					continue
+				}
+				if rootIsLocal(x.Addr) {
+					continue
+				}
+				return "estimatedFinalTx stores to " + shorten(newTermEnv().Term(x.Addr).String(), 80) + ": the estimated copy may differ from the transaction in more than its unlocking scripts"
+			case *ssa.Call:
+				sc := x.Call.StaticCallee()
+				if sc == nil {
+					if _, isB := x.Call.Value.(*ssa.Builtin); isB {
+						continue
+					}
+					return "estimatedFinalTx makes a dynamic call"
+				}
+				if !inScope(pkgPathOf(sc)) || sc.Name() == "Clone" {
+					continue
+				}
+				if sum := oe.Sums[sc]; sum == nil || len(sum.Writes) > 0 {
+					return "estimatedFinalTx calls " + funcName(sc) + ", which writes memory it did not allocate"
+				}
+			}
+		}
+	}
+	paths, err := feasiblePaths(fn, 2000)
+	if err != nil {
+		return err.Error()
+	}
+	n := 0
+	for _, d := range paths {
+		if returnDesc(d) != "return nil" {
+			continue
+		}
+		n++
+		if atomName(d.Env.Term(d.Ret.Results[0])) != "(*bt.Tx).Clone(p0)" {
+			return "estimatedFinalTx returns " + shorten(atomName(d.Env.Term(d.Ret.Results[0])), 80) + ", not a Clone of its receiver"
+		}
+	}
+	if n == 0 {
+		return "estimatedFinalTx has no success path"
+	}
+	return ""
+}
+
+// estimateSizeIsSizeOfEstimate: EstimateSizeWithTypes succeeds exactly with estimatedFinalTx().SizeWithTypes().
+func estimateSizeIsSizeOfEstimate(c *Ctx) string {
+	fn := c.P.Func("", "*Tx", "EstimateSizeWithTypes")
+	if fn == nil {
+		return "EstimateSizeWithTypes not found"
+	}
+	paths, err := feasiblePaths(fn, 2000)
+	if err != nil {
+		return err.Error()
+	}
+	n := 0
+	for _, d := range paths {
+		if returnDesc(d) != "return nil" {
+			continue
+		}
+		n++
+		if got := atomName(d.Env.Term(d.Ret.Results[0])); got != "(*bt.Tx).SizeWithTypes((*bt.Tx).estimatedFinalTx(p0)#0)" {
+			return "EstimateSizeWithTypes returns " + shorten(got, 100) + ", not the size of the estimated copy"
+		}
+	}
+	if n == 0 {
+		return "EstimateSizeWithTypes has no success path"
+	}
+	return ""
 }
